@@ -14,6 +14,8 @@ import traceback
 
 VERIF = os.path.dirname(os.path.dirname(os.path.abspath(__file__)))
 sys.path.insert(0, VERIF)
+# development aid (mutation sweeps run several checks at once): where evidence/ and replays/ are written; registered commands never set it
+OUT = os.environ.get("VERIF_OUT", VERIF)
 
 from . import api, native  # noqa: E402
 
@@ -98,10 +100,10 @@ class Result:
 
 
 def write_replay(pid, function, obligation, payload):
-    os.makedirs(os.path.join(VERIF, "replays"), exist_ok=True)
+    os.makedirs(os.path.join(OUT, "replays"), exist_ok=True)
     h = hashlib.sha1((function + obligation + json.dumps(payload, sort_keys=True, default=str)).encode()).hexdigest()[:8]
     path = os.path.join("replays", f"{pid}_{_slug(function.split(':')[-1])}_{h}.json")
-    with open(os.path.join(VERIF, path), "w") as f:
+    with open(os.path.join(OUT, path), "w") as f:
         json.dump(payload, f, indent=1, default=str)
     return path
 
@@ -326,7 +328,7 @@ def run_canaries(res: Result, mods):
 
 def run_property(pid, tier="quick", seed=0, jobs=None, level="proof", replay=None):
     res = Result(pid, tier, seed)
-    for old in glob.glob(os.path.join(VERIF, "replays", f"{pid}_*.json")):
+    for old in glob.glob(os.path.join(OUT, "replays", f"{pid}_*.json")):
         os.unlink(old)
     mods = load_modules()
     propmods = {n: m for n, m in mods.items() if n.split(".")[-1].startswith(pid + "_")}
@@ -442,8 +444,8 @@ def write_evidence(res: Result, propmods, level):
     )
     ev = dict(property_id=res.pid, tier=res.tier, seed=res.seed, level=level, coverage=cov,
               assumptions=sorted(set(assumptions)), wall_s=round(time.time() - res.t0, 2), violations=len(res.violations))
-    os.makedirs(os.path.join(VERIF, "evidence"), exist_ok=True)
-    with open(os.path.join(VERIF, "evidence", f"{res.pid}.json"), "w") as f:
+    os.makedirs(os.path.join(OUT, "evidence"), exist_ok=True)
+    with open(os.path.join(OUT, "evidence", f"{res.pid}.json"), "w") as f:
         json.dump(ev, f, indent=1, default=str)
 
 
